@@ -42,7 +42,7 @@ def run(tier, seed, res):
                        "the reference-count window of taskpool_ready (release before retain) is observed and counted (labels obs_*), "
                        "not judged: the property statement does not speak about object lifetime"]
     n = 16
-    L, pb = (2, 2) if quick else (3, 3)
+    L, pb = (2, 2) if quick else (3, 2)
     jobs = [dict(cmd=[b, "exh", str(L), str(pb), str(i), str(n)], tag="exh") for i in range(n)]
     wr = core.run_workers(PROP, jobs)
     res.absorb(wr, "exhaustive")
@@ -50,14 +50,14 @@ def run(tier, seed, res):
     res.coverage["exhaustive_subspace"] = ("2 workers x every effective program of length <= %d over {T+1,T-1,A+1,A-1,state} (worker 0 with 0 or 1 "
                                            "initial task) + main [ready, probe]; every schedule with <= %d preemptions" % (L, pb))
     collect(res, wr)
-    per = 2000 if quick else 190000
+    per = 1500 if quick else 190000
     jobs = [dict(cmd=[b, "rc"], env={"RC_PARAMS": "seed=%d max_success=%d max_size=100" % (seed * 131 + i, per)}, tag="rc") for i in range(n)]
     wr = core.run_workers(PROP, jobs)
     res.absorb(wr, "rc")
     collect(res, wr)
-    iters = 3000 if quick else 400000
-    jobs = [dict(cmd=[b, "stress", str(t), str(iters), str(seed * 17 + t)], tag="stress") for t in (2, 4, 8, 15)]
-    wr = core.run_workers(PROP, jobs, max_parallel=2)
+    iters = 2000 if quick else 400000
+    jobs = [dict(cmd=[b, "stress", str(t), str(iters), str(seed * 17 + t)], tag="stress") for t in ((2, 4, 8) if quick else (2, 4, 8, 15))]
+    wr = core.run_workers(PROP, jobs, max_parallel=3)
     res.absorb(wr, "stress")
     collect(res, wr)
     for f in sorted(glob.glob(os.path.join(core.VERIF, "corpus", PROP, "regress", "*.txt"))):
